@@ -255,6 +255,53 @@ impl<'a> PW<'a> {
         self.t.emit("q_rsim", json!({"pool": pool, "kind": kind, "ask": {"d": self.s.dsym(&ask.denom), "a": u(ask.amount)}, "offer_denom": self.s.dsym(offer_denom),
             "ok": ok, "offer": limbs(offer), "fwd_plus1": f1, "fwd": f0}));
     }
+    /// AssetDecimals for every denom of every pool and one foreign denom per pool (judged against the pool records of the state)
+    pub fn decimals(&mut self) {
+        let mut items = vec![];
+        for p in self.s.q_pools() {
+            let id = p.pool_info.pool_identifier.clone();
+            let mut ds: Vec<String> = p.pool_info.asset_denoms.clone();
+            ds.push(p.pool_info.lp_denom.clone());
+            for d in ds {
+                let r: Result<pm::AssetDecimalsResponse, String> = self.s.query(&self.s.pool, &pm::QueryMsg::AssetDecimals { pool_identifier: id.clone(), denom: d.clone() });
+                items.push(json!({"pool": id, "denom": self.s.dsym(&d), "ok": r.is_ok(), "dec": r.as_ref().map(|x| x.decimals as i64).unwrap_or(-1),
+                    "echo": r.as_ref().map(|x| x.pool_identifier == id && x.denom == d).unwrap_or(false)}));
+            }
+        }
+        let r: Result<pm::AssetDecimalsResponse, String> = self.s.query(&self.s.pool, &pm::QueryMsg::AssetDecimals { pool_identifier: "o.no.such.pool".into(), denom: "uusdc".into() });
+        items.push(json!({"pool": "o.no.such.pool", "denom": "uusdc", "ok": r.is_ok(), "dec": -1, "echo": false}));
+        self.t.emit("q_decimals", json!({"items": items}));
+    }
+    /// ReverseSimulateSwapOperations next to the single reverse simulations it stands for, asked from the last hop back
+    pub fn rroute(&mut self, ask: u128, hops: &[(String, String, String)]) {
+        let ops: Vec<pm::SwapOperation> = hops.iter().map(|(p, i, o)| pm::SwapOperation::MantraSwap { token_in_denom: i.clone(), token_out_denom: o.clone(), pool_identifier: p.clone() }).collect();
+        let r: Result<pm::ReverseSimulateSwapOperationsResponse, String> = self.s.query(&self.s.pool, &pm::QueryMsg::ReverseSimulateSwapOperations { ask_amount: Uint128::new(ask), operations: ops });
+        let mut need = ask;
+        let mut chain = vec![];
+        for (p, i, o) in hops.iter().rev() {
+            let q: Result<pm::ReverseSimulationResponse, String> = self.s.query(&self.s.pool, &pm::QueryMsg::ReverseSimulation {
+                ask_asset: coin(need, o.clone()), offer_asset_denom: i.clone(), pool_identifier: p.clone() });
+            match q {
+                Ok(x) => {
+                    chain.push(json!({"pool": p, "out": self.s.dsym(o), "ask": limbs(need), "ok": true, "offer": u(x.offer_amount), "swap": u(x.swap_fee_amount),
+                        "protocol": u(x.protocol_fee_amount), "burn": u(x.burn_fee_amount), "extra": u(x.extra_fees_amount), "slip": u(x.slippage_amount)}));
+                    need = x.offer_amount.u128();
+                }
+                Err(_) => {
+                    chain.push(json!({"pool": p, "out": self.s.dsym(o), "ask": limbs(need), "ok": false, "offer": [], "swap": [], "protocol": [], "burn": [], "extra": [], "slip": []}));
+                    break;
+                }
+            }
+        }
+        let cj = |v: &Vec<Coin>| v.iter().map(|c| json!({"d": self.s.dsym(&c.denom), "a": u(c.amount)})).collect::<Vec<_>>();
+        let e: Vec<Coin> = vec![];
+        let (offer, sw, pr, bu, ex, sl) = match &r {
+            Ok(x) => (u(x.offer_amount), cj(&x.swap_fees), cj(&x.protocol_fees), cj(&x.burn_fees), cj(&x.extra_fees), cj(&x.slippage_amounts)),
+            Err(_) => (json!([]), cj(&e), cj(&e), cj(&e), cj(&e), cj(&e)),
+        };
+        self.t.emit("q_rroute", json!({"n": hops.len(), "ask": limbs(ask), "ok": r.is_ok(), "offer": offer, "chain": chain,
+            "swap_fees": sw, "protocol_fees": pr, "burn_fees": bu, "extra_fees": ex, "slippage_amounts": sl}));
+    }
     /// Pools{} page by page against the full listing
     pub fn pages(&mut self, limit: u32) {
         let all: Vec<String> = self.s.q_pools().iter().map(|p| p.pool_info.pool_identifier.clone()).collect();
@@ -417,6 +464,7 @@ fn sc_create_pool_classes(t: &mut Tracer, cfg: SysCfg, name: &str) {
         w.create_pool(&b, &["uusdc", "uweth"], &[6, 18], f0.clone(), CP, Some("oneshort"), &short);
         w.create_pool(&b, &["uusdc", "uweth"], &[6, 18], f0.clone(), CP, Some("paid"), &due);
     }
+    w.decimals();
     w.pages(4);
     w.pages(100);
 }
@@ -584,6 +632,18 @@ fn sc_swaps_and_routes(t: &mut Tracer) {
         w.rsim("o.cp0", &coin(ask.min(1_500_000), "uusd"), "uom");
         w.rsim("o.ss1", &coin(ask.min(500_000_000_000), "uusdc"), "uusd");
     }
+    // reverse route quotes: one to five hops over both pool types, an unreachable amount, a broken and an empty route
+    for ask in [1u128, 1000, 1_000_000, 250_000_000_000] {
+        w.rroute(ask, &r2[..1]);
+        w.rroute(ask, &r2);
+        w.rroute(ask.min(1_000_000_000), &r3);
+    }
+    w.rroute(1_000_000, &[h("o.cp1", "uusdc", "uusdt"), h("o.cp2", "uusdt", "uweth"), h("o.ss3", "uweth", "uusd"), h("o.ss1", "uusd", "uusdc"), h("o.cp0", "uusd", "uom")]);
+    w.rroute(u128::MAX / 2, &r2);
+    w.rroute(1000, &[h("o.cp1", "uusdc", "uusdt"), h("o.nope", "uusdt", "uweth")]);
+    w.rroute(1000, &[h("o.cp1", "uusdc", "uusdt"), h("o.cp2", "uusdc", "uweth")]);
+    w.rroute(1000, &[]);
+    w.decimals();
     w.pages(1);
     w.pages(2);
     w.pages(3);
@@ -772,6 +832,8 @@ fn sc_unsorted_pools(t: &mut Tracer) {
     let have = w.s.bal(&a, &lpd);
     if have > 0 { w.withdraw(&a, "o.zs", &[coin(have / 2, lpd)]); }
     w.rsim("o.zc", &coin(1_000_000, "uusdc"), "uusdt");
+    w.rroute(1_000_000, &[("o.zs".into(), "uweth".into(), "uusdc".into()), ("o.zc".into(), "uusdc".into(), "uusdt".into())]);
+    w.decimals();
 }
 
 /// C12 "routes of any length": a simple route over 101 distinct pools sharing two denoms
